@@ -43,8 +43,8 @@
   with `strcasecmp`, `dlopen` does not).
 
   Recursion in C is unbounded; here `load` and the two `dfs` take fuel.  Running out
-  of fuel is the distinct outcome `Why.fuel`; `Iauthd.Module.fuel_suffices*` show it
-  never happens when the fuel exceeds the number of names.
+  of fuel is the distinct outcome `Why.fuel`; `Iauthd.Properties.C20.fuel_suffices` shows it
+  never happens, for any graph, when the fuel exceeds the number of names.
 -/
 namespace Iauthd.Module
 
